@@ -317,7 +317,7 @@ EXTRA = [
     ("XPlus13", 1, "+13", "2", None, None),
     ("XZeros13", 1, "0013", "002", None, None),
     ("XUnder13", 1, "1_3", "1_5", None, None),                   # generator >= p
-    ("XBigGen13", 1, "13", "340282366920938463463374607431768211463", None, None),   # generator >= 2^128 (= 7 mod 13)
+    ("XBigGen13", 1, "13", "18446744073709551614", None, None),   # generator = 2^64 - 2 (= 2 mod 13); a generator >= 2^(64N) does not compile
     ("XSs13a", 1, "13", "2", "3", "1"),
     ("XSs13b", 1, "13", "2", "5", "1"),                           # 5 does not divide the trace: floor division
     ("XSs13c", 1, "13", "2", "+7", "00"),                         # base^0 = 1
